@@ -2541,4 +2541,502 @@ theorem micro_close (cs cs' : CS) (t : Nat) (hm : micro cs t = some cs') :
       exact ⟨by rw [setPC_s, releaseWr_s]; exact id, fun _ => by rw [setPC_s, releaseWr_s], Or.inl (by rw [setPC_s, releaseWr_s]), fun _ => Or.inr (by rw [setPC_s, releaseWr_s])⟩
 
 
+
+/-- an upper bound on the entries of any line of the scheme -/
+def Scheme.maxParts (s : Scheme) : Nat := (s.map.map (fun kv => (splitOnByte 44 kv.2).length)).foldr max 0
+
+theorem le_foldr_max (l : List Nat) (x : Nat) (h : x ∈ l) : x ≤ l.foldr max 0 := by
+  induction l with
+  | nil => cases h
+  | cons a t ih =>
+    simp only [List.foldr_cons]
+    rcases List.mem_cons.mp h with e | e
+    · subst e; exact Nat.le_max_left _ _
+    · exact Nat.le_trans (ih e) (Nat.le_max_right _ _)
+
+theorem mapGet_mem (m : List (Bytes × Bytes)) (k v : Bytes) (h : mapGet m k = some v) : ∃ kv ∈ m, kv.2 = v := by
+  unfold mapGet at h
+  split at h
+  · rename_i kv hf
+    cases h
+    exact ⟨kv, List.mem_reverse.mp (List.mem_of_find?_eq_some hf), rfl⟩
+  · cases h
+
+theorem specs_length_le (s : Scheme) (pkt : Nat) : (s.specs pkt).length ≤ s.maxParts := by
+  unfold Scheme.specs
+  split
+  · exact Nat.zero_le _
+  · rename_i line hg
+    obtain ⟨kv, hm, e⟩ := mapGet_mem _ _ _ hg
+    refine Nat.le_trans (List.length_filterMap_le _ _) ?_
+    unfold Scheme.maxParts
+    apply le_foldr_max
+    rw [List.mem_map]
+    exact ⟨kv, hm, by rw [e]⟩
+
+theorem shape_length_le : ∀ (sizes : List Sz) (buf : Bytes), (shape sizes buf).length ≤ sizes.length + 1 := by
+  intro sizes
+  induction sizes with
+  | nil => intro buf; unfold shape; split <;> simp
+  | cons sz rest ih =>
+    intro buf
+    cases sz with
+    | check =>
+      unfold shape
+      split
+      · simp
+      · have := ih buf; simp only [List.length_cons]; omega
+    | size n =>
+      unfold shape
+      split
+      · have := ih (buf.drop n); simp only [List.length_cons]; omega
+      · split
+        · have := ih []; simp only [List.length_cons]; omega
+        · have := ih []; simp only [List.length_cons]; omega
+
+/-- the number of `write_all` calls of one `write_with_padding` is bounded by the scheme -/
+theorem prepare_length_le (s : Sess) (payload : Bytes) : (s.prepare payload).2.length ≤ s.scheme.maxParts + 1 ∧ (s.prepare payload).1.scheme = s.scheme := by
+  unfold Sess.prepare
+  split
+  · exact ⟨by simp, rfl⟩
+  · simp only
+    split
+    · exact ⟨by simp, rfl⟩
+    · split
+      · exact ⟨by simp, rfl⟩
+      · refine ⟨?_, rfl⟩
+        refine Nat.le_trans (shape_length_le _ _) ?_
+        rw [resolve_length]
+        have := specs_length_le s.scheme (s.pktCounter + Gen.pktFetchOffset)
+        show (Scheme.specs _ _).length + 1 ≤ _
+        omega
+
+
+
+/-! ### a step bound: every action strictly decreases the actor's cost and changes nobody else's -/
+
+def rem (K : Nat) (fs : List Bytes) : Nat := (fs.length - 1) * K
+
+def kCost (K : Nat) : CloseK → Nat
+  | .op => 0
+  | .inWrite fs => rem K fs
+
+def pcCost (K : Nat) : PC → Nat
+  | .idle | .fin => 0
+  | .openChecked => K + 2
+  | .enter fs => rem K fs + K + 1
+  | .waitBuf fs | .locked fs => rem K fs + K
+  | .preWr ps fs => rem K fs + ps.length + 7
+  | .waitWr ps fs | .piece ps fs => rem K fs + ps.length + 6
+  | .wdone _ fs => rem K fs + 2
+  | .cflag k => kCost K k + 5
+  | .cdrained k => kCost K k + 4
+  | .cwait k | .cshut k => kCost K k + 3
+
+def opCost (K : Nat) : COp → Nat
+  | .nobuf => 1
+  | .close => 8
+  | .write _ => K + 4
+  | .data _ p => (dataFrames (p.length + 1) 0 p).length * K + 4
+  | .dataOwn p => (dataFrames (p.length + 1) 0 p).length * K + 4
+  | .open => K + 5
+
+def sumCost (K : Nat) (ops : List COp) : Nat := (ops.map (opCost K)).sum
+
+def taskCost (K : Nat) (k : Task) : Nat :=
+  match k.pc with
+  | .fin => 0
+  | .idle => 1 + sumCost K k.ops
+  | pc => 2 + pcCost K pc + sumCost K k.ops.tail
+
+theorem pcCost_norm (K : Nat) (pc : PC) : pcCost K pc.norm = pcCost K pc := by cases pc <;> rfl
+
+theorem taskCost_norm (K : Nat) (k k' : Task) (h1 : k'.pc.norm = k.pc.norm) (h2 : k'.ops = k.ops) : taskCost K k' = taskCost K k := by
+  unfold taskCost
+  rw [h2]
+  cases hp : k.pc <;> cases hp' : k'.pc <;> rw [hp, hp'] at h1 <;> simp [PC.norm] at h1 <;> (try subst_vars) <;> simp [pcCost] <;>
+    first | rfl | (obtain ⟨a, b⟩ := h1; subst a; subst b; rfl) | (subst h1; rfl)
+
+theorem dataFrames_length (sid sid' : Nat) : ∀ (fuel : Nat) (data : Bytes),
+    (dataFrames fuel sid data).length = (dataFrames fuel sid' data).length := by
+  intro fuel
+  induction fuel with
+  | zero => intro _; rfl
+  | succ n ih =>
+    intro data
+    unfold dataFrames
+    split
+    · simp only [List.length_cons]; rw [ih]
+    · rfl
+
+theorem dataFrames_pos (sid : Nat) (fuel : Nat) (data : Bytes) : 1 ≤ (dataFrames (fuel + 1) sid data).length := by
+  unfold dataFrames; split <;> simp
+
+theorem rem_add (K : Nat) (fs : List Bytes) (h : fs ≠ []) : rem K fs + K = fs.length * K := by
+  unfold rem
+  cases fs with
+  | nil => exact absurd rfl h
+  | cons x xs => simp only [List.length_cons, Nat.add_sub_cancel]; rw [Nat.succ_mul]
+
+theorem rem_cons (K : Nat) (x g : Bytes) (gs : List Bytes) : rem K (x :: g :: gs) = rem K (g :: gs) + K := by
+  unfold rem; simp only [List.length_cons, Nat.add_sub_cancel]; rw [Nat.succ_mul]
+
+theorem rem_single (K : Nat) (x : Bytes) : rem K [x] = 0 := by simp [rem]
+
+
+
+def PC.busy : PC → Bool
+  | .idle | .fin => false
+  | _ => true
+
+theorem taskCost_busy (K : Nat) (k : Task) (h : k.pc.busy = true) : taskCost K k = 2 + pcCost K k.pc + sumCost K k.ops.tail := by
+  unfold taskCost
+  cases hp : k.pc <;> rw [hp] at h <;> first | rfl | cases h
+
+theorem taskCost_idle (K : Nat) (k : Task) (h : k.pc = .idle) : taskCost K k = 1 + sumCost K k.ops := by
+  unfold taskCost; rw [h]
+
+theorem cost_setPC (K : Nat) (c : CS) (t : Nat) (pc : PC) (h : pc.busy = true) :
+    taskCost K ((c.setPC t pc).task t) = 2 + pcCost K pc + sumCost K (c.task t).ops.tail := by
+  rw [setPC_self, taskCost_busy K _ h]
+
+theorem cost_finishOp (K : Nat) (c : CS) (t : Nat) (r : Res) :
+    taskCost K ((c.finishOp t r).task t) = 1 + sumCost K (c.task t).ops.tail := by
+  rw [finishOp_self, taskCost_idle K _ rfl]
+
+theorem cost_submit (K : Nat) (c : CS) (t : Nat) (fs : List Bytes) :
+    taskCost K ((c.submit t fs).task t) = 2 + (rem K fs + K + 1) + sumCost K (c.task t).ops.tail := by
+  rw [submit_self, taskCost_busy K _ rfl]; rfl
+
+theorem sumCost_cons (K : Nat) (op : COp) (rest : List COp) : sumCost K (op :: rest) = opCost K op + sumCost K rest := by
+  unfold sumCost; simp
+
+theorem enterClose_cost (K : Nat) (c : CS) (t : Nat) (k : CloseK) :
+    taskCost K ((c.enterClose t k).task t) ≤ 2 + (kCost K k + 5) + sumCost K (c.task t).ops.tail := by
+  unfold CS.enterClose
+  split
+  · cases k with
+    | op => rw [cost_finishOp]; omega
+    | inWrite fs => rw [cost_setPC K c t _ rfl]; simp only [pcCost, kCost]; omega
+  · rw [cost_setPC K _ t _ rfl]
+    simp only [pcCost]
+    show 2 + (kCost K k + 5) + sumCost K (c.task t).ops.tail ≤ 2 + (kCost K k + 5) + sumCost K (c.task t).ops.tail
+    omega
+
+theorem lockWrWrite_cost (K : Nat) (c : CS) (t : Nat) (ps fs : List Bytes) :
+    taskCost K ((c.lockWrWrite t ps fs).task t) = 2 + (rem K fs + ps.length + 6) + sumCost K (c.task t).ops.tail := by
+  unfold CS.lockWrWrite
+  split <;> (rw [cost_setPC K _ t _ rfl]; rfl)
+
+/-- every action strictly decreases the cost of the task that takes it, provided `K` exceeds the
+number of `write_all` calls a single packet can need by 12 -/
+theorem micro_cost (K : Nat) (cs cs' : CS) (t : Nat) (hK : cs.s.scheme.maxParts + 12 ≤ K) (hm : micro cs t = some cs') :
+    taskCost K (cs'.task t) < taskCost K (cs.task t) := by
+  have rbo := fun (c : CS) => (releaseBuf_task c t).2.2.1
+  have rwo := fun (c : CS) => (releaseWr_task c t).2.2.1
+  unfold micro at hm
+  simp only at hm
+  split at hm
+  · cases hm
+  · -- idle
+    rename_i hpc
+    rw [taskCost_idle K _ hpc]
+    split at hm
+    · rename_i hops
+      cases hm
+      rw [setPC_self]; simp [taskCost]; omega
+    · rename_i rest hops
+      cases hm
+      rw [cost_finishOp, hops, sumCost_cons]
+      show 1 + sumCost K ((cs.task t).ops.tail) < _
+      rw [hops]; simp only [List.tail_cons, opCost]; omega
+    · rename_i f rest hops
+      split at hm
+      · cases hm; rw [cost_finishOp, hops, sumCost_cons]; simp only [List.tail_cons, opCost]; omega
+      · cases hm; rw [cost_submit, hops, sumCost_cons]; simp only [List.tail_cons, opCost, rem_single]; omega
+    · rename_i sid payload rest hops
+      cases hm
+      rw [cost_submit, hops, sumCost_cons]
+      simp only [List.tail_cons, opCost]
+      have hne : (dataFrames (payload.length + 1) sid payload).map encodeD ≠ [] := by
+        have := dataFrames_pos sid payload.length payload
+        intro e; rw [List.map_eq_nil_iff] at e; rw [e] at this; simp at this
+      have := rem_add K _ hne
+      rw [List.length_map, dataFrames_length sid 0] at this
+      omega
+    · rename_i payload rest hops
+      cases hm
+      rw [cost_submit, hops, sumCost_cons]
+      simp only [List.tail_cons, opCost]
+      generalize hsid : ((List.filterMap id (cs.task t).sids).getLast?.getD 0) = sid
+      have hne : (dataFrames (payload.length + 1) sid payload).map encodeD ≠ [] := by
+        have := dataFrames_pos sid payload.length payload
+        intro e; rw [List.map_eq_nil_iff] at e; rw [e] at this; simp at this
+      have := rem_add K _ hne
+      rw [List.length_map, dataFrames_length sid 0] at this
+      omega
+    · rename_i rest hops
+      split at hm
+      · cases hm
+        rw [cost_finishOp, hops, sumCost_cons]
+        show 1 + sumCost K ((cs.setTask t _).task t).ops.tail < _
+        rw [setTask_task, if_pos rfl]
+        simp only [hops, List.tail_cons, opCost]; omega
+      · cases hm; rw [cost_setPC K cs t _ rfl, hops, sumCost_cons]; simp only [List.tail_cons, opCost, pcCost]; omega
+    · rename_i rest hops
+      cases hm
+      have := enterClose_cost K cs t .op
+      rw [hops] at this ⊢
+      rw [sumCost_cons]
+      simp only [List.tail_cons, opCost, kCost] at this ⊢
+      omega
+  · -- openChecked
+    rename_i hpc
+    cases hm
+    rw [taskCost_busy K (cs.task t) (by rw [hpc]; rfl), hpc, cost_submit]
+    show 2 + (rem K _ + K + 1) + sumCost K ((CS.setTask _ t _).task t).ops.tail < _
+    rw [setTask_task, if_pos rfl]
+    simp only [pcCost, rem_single]
+    show 2 + (0 + K + 1) + sumCost K (cs.task t).ops.tail < _
+    omega
+  · -- enter
+    rename_i fs hpc
+    rw [taskCost_busy K (cs.task t) (by rw [hpc]; rfl), hpc]
+    split at hm <;> (cases hm; rw [cost_setPC K _ t _ rfl]; simp only [pcCost]; show 2 + _ + sumCost K (cs.task t).ops.tail < _; omega)
+  · cases hm
+  · -- locked []
+    rename_i hpc
+    cases hm
+    rw [taskCost_busy K (cs.task t) (by rw [hpc]; rfl), cost_finishOp, rbo]; omega
+  · -- locked (b :: fs)
+    rename_i b fs hpc
+    rw [taskCost_busy K (cs.task t) (by rw [hpc]; rfl), hpc]
+    split at hm
+    · cases hm; rw [cost_finishOp, rbo]; omega
+    · split at hm
+      · split at hm
+        · cases hm; rw [cost_finishOp, rbo]; show 1 + sumCost K (cs.task t).ops.tail < _; omega
+        · rename_i hfs
+          cases hm
+          rw [cost_setPC K _ t _ rfl, rbo]
+          show 2 + pcCost K (.enter fs) + sumCost K (cs.task t).ops.tail < _
+          have hne : fs ≠ [] := fun e => hfs (by rw [e]; rfl)
+          cases fs with
+          | nil => exact absurd rfl hne
+          | cons g gs => simp only [pcCost, rem_cons]; omega
+      · cases hm
+        rw [cost_setPC K _ t _ rfl]
+        simp only [pcCost]
+        have key : ∀ (P : Sess × List Bytes), P.2.length ≤ cs.s.scheme.maxParts + 1 →
+            2 + (rem K (b :: fs) + P.2.length + 7) + sumCost K (cs.task t).ops.tail <
+            2 + (rem K (b :: fs) + K) + sumCost K (cs.task t).ops.tail := by intro P h; omega
+        exact key _ (prepare_length_le { cs.s with buffer := [] } (cs.s.buffer ++ b)).1
+  · -- preWr
+    rename_i ps fs hpc
+    cases hm
+    rw [taskCost_busy K (cs.task t) (by rw [hpc]; rfl), hpc, lockWrWrite_cost]
+    simp only [pcCost]; omega
+  · cases hm
+  · -- piece []
+    rename_i fs hpc
+    cases hm
+    rw [taskCost_busy K (cs.task t) (by rw [hpc]; rfl), hpc, cost_setPC K _ t _ rfl, rwo]
+    simp only [pcCost, List.length_nil]; omega
+  · -- piece (p :: ps)
+    rename_i p ps fs hpc
+    rw [taskCost_busy K (cs.task t) (by rw [hpc]; rfl), hpc]
+    split at hm
+    · split at hm
+      · cases hm
+        rw [cost_setPC K _ t _ rfl, rwo]
+        simp only [pcCost, List.length_cons]
+        show 2 + _ + sumCost K (cs.task t).ops.tail < _
+        omega
+      · cases hm
+        rw [cost_setPC K _ t _ rfl]
+        simp only [pcCost, List.length_cons]
+        show 2 + _ + sumCost K (cs.task t).ops.tail < _
+        omega
+    · cases hm
+      have := enterClose_cost K ({ cs with failed := true } : CS).releaseWr t (.inWrite fs)
+      rw [rwo] at this
+      simp only [pcCost, kCost, List.length_cons] at this ⊢
+      have e : (({ cs with failed := true } : CS).task t).ops = (cs.task t).ops := rfl
+      rw [e] at this
+      omega
+  · -- wdone
+    rename_i r fs hpc
+    rw [taskCost_busy K (cs.task t) (by rw [hpc]; rfl), hpc]
+    try simp only at hm
+    split at hm
+    · rename_i x g gs
+      cases hm
+      rw [cost_setPC K _ t _ rfl, rbo]
+      simp only [pcCost, rem_cons]; omega
+    · cases hm; rw [cost_finishOp, rbo]; omega
+  · -- cflag
+    rename_i k hpc
+    cases hm
+    rw [taskCost_busy K (cs.task t) (by rw [hpc]; rfl), hpc, cost_setPC K _ t _ rfl]
+    simp only [pcCost]
+    show 2 + _ + sumCost K (cs.task t).ops.tail < _
+    omega
+  · -- cdrained
+    rename_i k hpc
+    rw [taskCost_busy K (cs.task t) (by rw [hpc]; rfl), hpc]
+    split at hm <;> (cases hm; rw [cost_setPC K _ t _ rfl]; simp only [pcCost]; show 2 + _ + sumCost K (cs.task t).ops.tail < _; omega)
+  · cases hm
+  · -- cshut
+    rename_i k hpc
+    rw [taskCost_busy K (cs.task t) (by rw [hpc]; rfl), hpc]
+    cases k with
+    | op =>
+      cases hm
+      rw [cost_finishOp, rwo]
+      show 1 + sumCost K (cs.task t).ops.tail < _
+      omega
+    | inWrite fs =>
+      cases hm
+      rw [cost_setPC K _ t _ rfl, rwo]
+      simp only [pcCost, kCost]
+      show 2 + _ + sumCost K (cs.task t).ops.tail < _
+      omega
+
+
+
+theorem enterClose_scheme (cs : CS) (t : Nat) (k : CloseK) : (cs.enterClose t k).s.scheme = cs.s.scheme := by
+  unfold CS.enterClose; split
+  · cases k <;> rfl
+  · rfl
+
+theorem lockWrWrite_s (cs : CS) (t : Nat) (ps fs : List Bytes) : (cs.lockWrWrite t ps fs).s = cs.s := by
+  unfold CS.lockWrWrite; split <;> rfl
+
+theorem transportWrite_scheme (s s' : Sess) (p : Bytes) (h : s.transportWrite p = some s') : s'.scheme = s.scheme := by
+  unfold Sess.transportWrite at h
+  split at h
+  · cases h
+  · split at h
+    · cases h
+    · cases h; rfl
+    · cases h; rfl
+
+/-- no action changes the padding scheme (M13 has no UpdatePaddingScheme: that is the receive loop, C19) -/
+theorem micro_scheme (cs cs' : CS) (t : Nat) (hm : micro cs t = some cs') : cs'.s.scheme = cs.s.scheme := by
+  unfold micro at hm
+  simp only at hm
+  split at hm
+  · cases hm
+  · split at hm
+    · cases hm; rfl
+    · cases hm; rfl
+    · split at hm <;> (cases hm; rfl)
+    · cases hm; rfl
+    · cases hm; rfl
+    · split at hm <;> (cases hm; rfl)
+    · cases hm; exact enterClose_scheme cs t _
+  · cases hm; rfl
+  · split at hm <;> (cases hm; rfl)
+  · cases hm
+  · cases hm; rw [finishOp_s, releaseBuf_s]
+  · rename_i b fs _
+    split at hm
+    · cases hm; rw [finishOp_s, releaseBuf_s]
+    · split at hm
+      · split at hm
+        · cases hm; rw [finishOp_s, releaseBuf_s]
+        · cases hm; rw [setPC_s, releaseBuf_s]
+      · cases hm
+        rw [setPC_s]
+        exact (prepare_length_le { cs.s with buffer := [] } (cs.s.buffer ++ b)).2
+  · cases hm; rw [lockWrWrite_s]
+  · cases hm
+  · cases hm; rw [setPC_s, releaseWr_s]
+  · rename_i p ps fs _
+    split at hm
+    · rename_i s' hs'
+      have := transportWrite_scheme cs.s s' p hs'
+      split at hm
+      · cases hm; rw [setPC_s, releaseWr_s]; exact this
+      · cases hm; rw [setPC_s]; exact this
+    · cases hm; rw [enterClose_scheme, releaseWr_s]
+  · try simp only at hm
+    split at hm
+    · cases hm; rw [setPC_s, releaseBuf_s]
+    · cases hm; rw [finishOp_s, releaseBuf_s]
+  · cases hm; rfl
+  · split at hm <;> (cases hm; rfl)
+  · cases hm
+  · rename_i k _
+    cases k with
+    | op => cases hm; rw [finishOp_s, releaseWr_s]
+    | inWrite fs => cases hm; rw [setPC_s, releaseWr_s]
+
+/-- total remaining work -/
+def totalCost (K : Nat) (cs : CS) : Nat := ((List.range cs.n).map (fun u => taskCost K (cs.task u))).sum
+
+theorem sum_update_lt : ∀ (n t : Nat) (f g : Nat → Nat), t < n → g t < f t → (∀ u, u ≠ t → g u = f u) →
+    ((List.range n).map g).sum < ((List.range n).map f).sum := by
+  intro n
+  induction n with
+  | zero => intro t f g h; omega
+  | succ m ih =>
+    intro t f g ht hlt hoth
+    rw [List.range_succ, List.map_append, List.map_append, List.sum_append, List.sum_append]
+    simp only [List.map_cons, List.map_nil, List.sum_cons, List.sum_nil, Nat.add_zero]
+    by_cases e : t = m
+    · subst e
+      have : (List.range t).map g = (List.range t).map f := by
+        apply List.map_congr_left
+        intro u hu
+        rw [List.mem_range] at hu
+        exact hoth u (by omega)
+      rw [this]; omega
+    · have := ih t f g (by omega) hlt hoth
+      rw [hoth m (fun e' => e e'.symm)]
+      omega
+
+theorem micro_total (K : Nat) (cs cs' : CS) (t : Nat) (hid : IdInv cs) (hK : cs.s.scheme.maxParts + 12 ≤ K)
+    (hm : micro cs t = some cs') : totalCost K cs' < totalCost K cs := by
+  have ht : t < cs.n := by
+    cases Nat.lt_or_ge t cs.n with
+    | inl h' => exact h'
+    | inr h' =>
+      have := (hid.unused t h').1
+      unfold micro at hm
+      simp only [this] at hm
+      cases hm
+  unfold totalCost
+  rw [micro_n cs cs' t hm]
+  apply sum_update_lt cs.n t _ _ ht (micro_cost K cs cs' t hK hm)
+  intro u hu
+  obtain ⟨h1, _, h3, _, _⟩ := micro_others cs cs' t hm u hu
+  exact taskCost_norm K _ _ h1 h3
+
+/-- a schedule: which task acts next; it is valid if each named task can act when its turn comes -/
+def runSched : CS → List Nat → Option CS
+  | cs, [] => some cs
+  | cs, t :: rest => match micro cs t with
+    | some cs' => runSched cs' rest
+    | none => none
+
+/-- T9.3 `every_schedule_is_bounded`: whatever the interleaving, the tasks of a state can take at
+most `totalCost` actions altogether — no livelock, no task runs for ever. -/
+theorem sched_bounded (K : Nat) : ∀ (l : List Nat) (cs cs' : CS), IdInv cs → cs.s.scheme.maxParts + 12 ≤ K →
+    runSched cs l = some cs' → l.length + totalCost K cs' ≤ totalCost K cs := by
+  intro l
+  induction l with
+  | nil => intro cs cs' _ _ h; cases h; simp
+  | cons t rest ih =>
+    intro cs cs' hid hK h
+    unfold runSched at h
+    split at h
+    · rename_i c1 hm
+      have h1 := micro_total K cs c1 t hid hK hm
+      have h2 := ih c1 cs' (IdInv_micro cs c1 t hid hm) (by rw [micro_scheme cs c1 t hm]; exact hK) h
+      simp only [List.length_cons]
+      omega
+    · cases h
+
+
 end AnyTLS
